@@ -719,7 +719,9 @@ pub fn bigcontainer_count(spec: &SoloSpec, tier: Tier) -> u64 {
     }
 }
 
-const BIG_BUILDERS: [(&str, u8, usize); 5] = [("LIST", 0, 1), ("TUPLE", 2, 1), ("DICT", 0, 2), ("FROZENSET", 4, 1), ("LIST", 5, 1)];
+/// (collecting opcode, protocol, pushes per member); "" = no collecting opcode: the next choice is
+/// made while the group above the MARK is still open
+const BIG_BUILDERS: [(&str, u8, usize); 7] = [("LIST", 0, 1), ("TUPLE", 2, 1), ("DICT", 0, 2), ("FROZENSET", 4, 1), ("LIST", 5, 1), ("", 0, 1), ("", 3, 1)];
 const BIG_SIZES: [usize; 3] = [260, 1_030, 4_100];
 
 /// the steered program of a container with one deviating member: a callable and an argument tuple
@@ -736,7 +738,7 @@ fn bigcontainer_scenario(k: u64) -> Scenario {
     let r = (k / 64) as usize;
     let (builder, p, per) = BIG_BUILDERS[(r / 3) % BIG_BUILDERS.len()];
     let round = r / (3 * BIG_BUILDERS.len());
-    if r % 3 == 0 && round % 2 == 1 {
+    if r % 3 == 0 && round % 2 == 1 && !builder.is_empty() {
         // every other round the smallest size is replaced by the mixed-kind container (members of
         // two kinds: checks that look at "the first few" or at one representative member)
         let ops = mixed_container_ops(builder, p);
@@ -749,8 +751,11 @@ fn bigcontainer_scenario(k: u64) -> Scenario {
     let size = BIG_SIZES[r % 3];
     // thorough: the same with the other plain pushes
     let push = ["NONE", "EMPTY_TUPLE", "EMPTY_LIST"][(round / 2) % 3];
-    let ops = vec!["MARK".to_string(), format!("{}*{}", push, size * per), builder.to_string()];
-    let n = 2 + size * per + 1;
+    let mut ops = vec!["MARK".to_string(), format!("{}*{}", push, size * per)];
+    if !builder.is_empty() {
+        ops.push(builder.to_string());
+    }
+    let n = crate::synth::token_ops(&ops) + 1;
     let mut sc = Scenario::solo(tree_config(p, n), Entropy::Bytes(vec![]));
     sc.steer = Some(desc::Steer { ops, tail: Some(b), free: None });
     sc.faults.push(desc::Fault {
